@@ -50,6 +50,9 @@ Definition ef (n : name) : entry := {| e_name := n; e_file := true |}.
 Definition ed (n : name) : entry := {| e_name := n; e_file := false |}.
 Definition rb (x : option oexn) (s : list (conn * list (name * name))) : robs := {| r_exc := x; r_sent := s |}.
 Definition r0 : robs := rb None [].
+(* a module of the node of a case: exported (export=True, the default) / internal (export=False) *)
+Definition mx (n : name) : name * bool := (n, true).
+Definition mh (n : name) : name * bool := (n, false).
 
 (* the level table mlzlog + frappy give on the pinned tree, as a literal: cases whose observed table is this one refer to
    it by name (shorter shard files); it is still compared with the model's log_levels in every case *)
@@ -167,20 +170,21 @@ Definition conc_check (mods : list name) (pre : list op) (pre_obs : list robs) (
   && route_check mods (c_table st) sweep sweep_obs.
 
 Inductive case :=
-| CRoute (levels : list (name * Z)) (mods : list name) (ops : list op) (obs : list robs)
+| CRoute (levels : list (name * Z)) (nd : node) (ops : list op) (obs : list robs)
 | CRot (prefix : name) (max_days : nat) (init : dir) (date0 : name) (listing0 : list entry) (steps : list rstep)
-| CConc (levels : list (name * Z)) (mods : list name) (pre : list op) (pre_obs : list robs) (threads : list cthread)
+| CConc (levels : list (name * Z)) (nd : node) (pre : list op) (pre_obs : list robs) (threads : list cthread)
         (events : list (nat * oev)) (final : table) (sweep : list op) (sweep_obs : list robs).
 
 Definition check_case (c : case) : bool :=
   match c with
-  | CRoute levels mods ops obs =>
-      list_eqb lv_eqb levels log_levels && route_check mods [] ops obs
+  | CRoute levels nd ops obs =>
+      (* named lookups and the "all modules" operations both range over secnode.modules = node_modules nd *)
+      list_eqb lv_eqb levels log_levels && route_check (node_modules nd) [] ops obs
   | CRot prefix n init date0 l0 steps =>
       let d0 := open_file init (log_name prefix date0) in
       list_eqb entry_eqb (sort d0) l0 && rot_check prefix n d0 steps
-  | CConc levels mods pre pre_obs threads events final sweep sweep_obs =>
-      list_eqb lv_eqb levels log_levels && conc_check mods pre pre_obs threads events final sweep sweep_obs
+  | CConc levels nd pre pre_obs threads events final sweep sweep_obs =>
+      list_eqb lv_eqb levels log_levels && conc_check (node_modules nd) pre pre_obs threads events final sweep sweep_obs
   end.
 
 (* what the model does, for diagnosis in replay files *)
@@ -202,10 +206,11 @@ Inductive model_out :=
         (x : list (list delivery * option exn)).
 Definition model_result (c : case) : model_out :=
   match c with
-  | CRoute _ mods ops _ => MRoute (route_trace mods [] ops)
+  | CRoute _ nd ops _ => MRoute (route_trace (node_modules nd) [] ops)
   | CRot prefix n init date0 _ steps =>
       let d0 := open_file init (log_name prefix date0) in MRot (sort d0) (rot_trace prefix n d0 steps)
-  | CConc _ mods pre _ threads events _ sweep _ =>
+  | CConc _ nd pre _ threads events _ sweep _ =>
+      let mods := node_modules nd in
       let '(st, ok) := conc_final mods (run mods pre) threads events in
       MConc ok (c_progs st) (map l_pend (c_loc st)) (c_table st) (route_trace mods (c_table st) sweep)
   end.
